@@ -23,6 +23,7 @@ Definition dispatch (e : sexp) : option sexp :=
   | SList (Atom "engine" :: _) => run_engine e
   | SList (Atom "find" :: _) => run_find e
   | SList (Atom "plain" :: _) => run_plain e
+  | SList (Atom "helpdoc" :: _) => run_helpdoc e
   | SList (Atom "splitws" :: _) => run_splitws e
   | SList (Atom "become" :: _) => run_become e
   | _ => None
